@@ -5,7 +5,7 @@ import Deb822Verif.Lemmas.DebLexInv
   start of a line, no line terminator inside a VALUE token. Here:
 
   * `Lx2`: a COMMENT token is followed by a NEWLINE token (or nothing); an INDENT token is never
-    followed by a KEY token;
+    followed by a KEY token; a WHITESPACE token is never followed by a WHITESPACE token;
   * `Ls`: the lexer's `start_of_line` flag, read off the token kinds: after a KEY token and up to the
     next NEWLINE token ("inside a field line") only COLON, WHITESPACE, VALUE and NEWLINE tokens occur;
     everywhere else no WHITESPACE token occurs;
@@ -15,7 +15,8 @@ namespace Deb822Verif.Deb
 
 /-! ### `Lx2` -/
 
-def Follows2 (a b : Kind) : Prop := (a = .COMMENT → b = .NEWLINE) ∧ (a = .INDENT → b ≠ .KEY)
+def Follows2 (a b : Kind) : Prop :=
+  (a = .COMMENT → b = .NEWLINE) ∧ (a = .INDENT → b ≠ .KEY) ∧ (a = .WHITESPACE → b ≠ .WHITESPACE)
 
 /-- `Lx2 p ts`: `ts` can follow a token of kind `p`; `Lx2 .KEY` puts no condition on the first
     token, so it is inherited by every suffix -/
@@ -25,7 +26,8 @@ def Lx2 (p : Kind) : List Tok → Prop
 
 theorem Lx2_tail {p : Kind} {t : Tok} {ts : List Tok} (h : Lx2 p (t :: ts)) : Lx2 t.1 ts := h.2
 
-theorem follows2_key (b : Kind) : Follows2 .KEY b := ⟨(fun h => nomatch h), (fun h => nomatch h)⟩
+theorem follows2_key (b : Kind) : Follows2 .KEY b :=
+  ⟨(fun h => nomatch h), (fun h => nomatch h), (fun h => nomatch h)⟩
 
 theorem Lx2_weaken {p : Kind} {ts : List Tok} (h : Lx2 p ts) : Lx2 .KEY ts := by
   cases ts with
@@ -43,7 +45,11 @@ theorem Lx2_after_comment {p : Kind} {c n : Tok} {ts : List Tok} (h : Lx2 p (c :
 
 /-- an INDENT token is not followed by KEY -/
 theorem Lx2_after_indent {p : Kind} {i n : Tok} {ts : List Tok} (h : Lx2 p (i :: n :: ts))
-    (hi : i.1 = .INDENT) : n.1 ≠ .KEY := h.2.1.2 hi
+    (hi : i.1 = .INDENT) : n.1 ≠ .KEY := h.2.1.2.1 hi
+
+/-- a WHITESPACE token is not followed by WHITESPACE -/
+theorem Lx2_after_ws {p : Kind} {w n : Tok} {ts : List Tok} (h : Lx2 p (w :: n :: ts))
+    (hw : w.1 = .WHITESPACE) : n.1 ≠ .WHITESPACE := h.2.1.2.2 hw
 
 /-- `INDENT COMMENT* t`: `t` is not a KEY token -/
 theorem Lx2_indent_comments {p : Kind} (i : Tok) (cs : List Tok) (t : Tok) (r : List Tok)
@@ -82,22 +88,49 @@ theorem lexStep_indent_not_key (st : LexState) (c : Char) (rest : Str) (h : 0 < 
   unfold lexStep
   (repeat' split) <;> simp_all
 
+theorem head_dropWhile_indent (rest : Str) :
+    ∀ c, (rest.dropWhile isIndent).head? = some c → isIndent c = false := by
+  induction rest with
+  | nil => intro c h; simp at h
+  | cons a rest ih =>
+    intro c h
+    simp only [List.dropWhile_cons] at h
+    split at h
+    · exact ih c h
+    · rename_i hn; simp at h; subst h; simpa using hn
+
+/-- after WHITESPACE the remaining input does not start with a blank -/
+theorem lexStep_ws_rest (st : LexState) (c : Char) (rest : Str) (h : (lexStep st c rest).1.1 = .WHITESPACE) :
+    ∀ x, (lexStep st c rest).2.2.head? = some x → isIndent x = false := by
+  unfold lexStep at h ⊢
+  (repeat' split) <;> simp_all
+  exact head_dropWhile_indent rest
+
+/-- a WHITESPACE token starts with a blank -/
+theorem lexStep_notIndent_not_ws (st : LexState) (c : Char) (rest : Str) (h : isIndent c = false) :
+    (lexStep st c rest).1.1 ≠ .WHITESPACE := by
+  unfold lexStep
+  (repeat' split) <;> simp_all
+
 theorem lexAux_lx2 (st : LexState) (input : Str) : ∀ p : Kind,
     (p = .COMMENT → ∀ c, input.head? = some c → isNewline c = true) →
     (p = .INDENT → 0 < st.indent) →
+    (p = .WHITESPACE → ∀ c, input.head? = some c → isIndent c = false) →
     Lx2 p (lexAux st input) := by
   fun_induction lexAux st input with
-  | case1 => intro p _ _; trivial
+  | case1 => intro p _ _ _; trivial
   | case2 st c rest r ih =>
-    intro p h1 h2
-    refine ⟨⟨?_, ?_⟩, ih _ ?_ ?_⟩
+    intro p h1 h2 h3
+    refine ⟨⟨?_, ?_, ?_⟩, ih _ ?_ ?_ ?_⟩
     · intro hp; exact lexStep_of_newline st c rest (h1 hp c rfl)
     · intro hp; exact lexStep_indent_not_key st c rest (h2 hp)
+    · intro hp; exact lexStep_notIndent_not_ws st c rest (h3 hp c rfl)
     · exact lexStep_comment_rest st c rest
     · exact lexStep_indent_pos st c rest
+    · exact lexStep_ws_rest st c rest
 
 theorem lex_lx2 (s : Str) : Lx2 .KEY (lex s) :=
-  lexAux_lx2 initState s .KEY (by intro h; cases h) (by intro h; cases h)
+  lexAux_lx2 initState s .KEY (by intro h; cases h) (by intro h; cases h) (by intro h; cases h)
 
 /-! ### `Ls`: the `start_of_line` flag -/
 
